@@ -140,7 +140,8 @@ def normalize_l1(events):
             out.append({'a': 'Reset', 'n': n, 'sid': e['sid'], 'conf': e['conf']})
         elif a == 'Set':
             out.append({'a': 'Set', 'n': n, 'k': e['k'], 'val': e['val'], 'rev': e['rev'], 'flag': e['flag'],
-                        'nblk': e['nblk'], 'vh': e['vh'], 'res': e['res'], 'ver': int(e.get('ver', 0) or 0)})
+                        'nblk': e['nblk'], 'vh': e['vh'], 'res': e['res'], 'ver': int(e.get('ver', 0) or 0),
+                        'wrote': bool(e.get('wrote'))})
         elif a == 'Get':
             r = _read(e)
             r.update({'a': 'Get', 'n': n, 'k': e['k'], 'c': int(e.get('c', -1)), 'off': int(e.get('off', 0)),
@@ -303,7 +304,7 @@ def tlc_run(module, cfg, rundir, workers=NCPU, timeout=1800, extra=(), java=()):
     cmd = ['tlc', '-workers', str(workers), '-metadir', meta, '-config', cfgname, *extra, module + '.tla']
     t0 = time.time()
     # many JVMs run side by side (16 shards, several checks): keep each one's GC threads few
-    jopts = ['-Djava.io.tmpdir=' + rundir, '-XX:ParallelGCThreads=%d' % (2 if workers == 1 else 4)]
+    jopts = ['-Djava.io.tmpdir=' + rundir, '-Xss512m', '-XX:ParallelGCThreads=%d' % (2 if workers == 1 else 4)]
     if workers == 1:
         jopts.append('-XX:TieredStopAtLevel=1')
     jopts += list(java)
@@ -377,7 +378,8 @@ def tlc_validate(trace_events, rundir, module='Trace_Bucket', cfg='Trace_Bucket.
         js = m[-1].encode('utf8').decode('unicode_escape') if '\\' in m[-1] else m[-1]
         try:
             d = json.loads(js)
-            res['bad'] = [tuple(x) for x in d.get('bad', [])]
+            res['bad'] = [tuple(x[:3]) for x in d.get('bad', [])]
+            res['bad_detail'] = [tuple(x) for x in d.get('bad', [])]
             res['drift'] = [tuple(x) for x in d.get('drift', [])]
             res['lead'] = [tuple(x) for x in d.get('lead', [])]
             res['consumed'] = d.get('consumed', 0)
